@@ -5,6 +5,7 @@ import (
 	"crypto/sha256"
 	"encoding/binary"
 	"fmt"
+	"io"
 	"math/big"
 	"sync"
 	"sync/atomic"
@@ -80,6 +81,22 @@ func (c *counterReader) Read(p []byte) (int, error) {
 		h.Write(cb[:])
 		off += copy(p[off:], h.Sum(nil))
 		ctr++
+	}
+	return len(p), nil
+}
+
+// dryReader delivers budget full reads and then only io.EOF (lock-free: one atomic counter).
+type dryReader struct {
+	budget int64
+	used   atomic.Int64
+}
+
+func (d *dryReader) Read(p []byte) (int, error) {
+	if d.used.Add(1) > d.budget {
+		return 0, io.EOF
+	}
+	for i := range p {
+		p[i] = byte(11*i + 5)
 	}
 	return len(p), nil
 }
@@ -372,6 +389,52 @@ func c20SchemesKind() c20kind {
 				panic(err)
 			}
 			acts = append(acts, c20action{"dleq.Verify(shared proof)/" + n, func() string { return fpe(prf.Verify(g, G, H, xG, xH)) }})
+			// recovery from a shared, complete, NOT index-ordered list of shares (the list is an input: it must not be reordered)
+			{
+				pri := share.NewPriPoly(g, 3, g.Scalar().Pick(rng.Stream()), rng.Stream())
+				pub := pri.Commit(nil)
+				ord := rng.Perm(5)
+				if ord[0] < ord[1] {
+					ord[0], ord[1] = ord[1], ord[0] // certainly not ascending
+				}
+				var pubSh []*share.PubShare
+				var priSh []*share.PriShare
+				for _, i := range ord {
+					pubSh = append(pubSh, pub.Eval(uint32(i)))
+					priSh = append(priSh, pri.Eval(uint32(i)))
+				}
+				order := func() string {
+					o := ""
+					for k := range pubSh {
+						o += fmt.Sprint(pubSh[k].I, priSh[k].I, ",")
+					}
+					return o
+				}
+				acts = append(acts, c20action{"share.RecoverCommit(shared unordered shares)/" + n, func() string {
+					before := order()
+					c, err := share.RecoverCommit(g, pubSh, 3, 5)
+					if err != nil {
+						return before + "err:" + err.Error()
+					}
+					return before + fp(c.MarshalBinary())
+				}})
+				acts = append(acts, c20action{"share.RecoverPubPoly(shared unordered shares)/" + n, func() string {
+					before := order()
+					pp, err := share.RecoverPubPoly(g, pubSh, 3, 5)
+					if err != nil {
+						return before + "err:" + err.Error()
+					}
+					return before + fp(pp.Commit().MarshalBinary())
+				}})
+				acts = append(acts, c20action{"share.RecoverSecret(shared unordered shares)/" + n, func() string {
+					before := order()
+					x, err := share.RecoverSecret(g, priSh, 3, 5)
+					if err != nil {
+						return before + "err:" + err.Error()
+					}
+					return before + fp(x.MarshalBinary())
+				}})
+			}
 			// pvss
 			nT, t := 4, 3
 			var xs []kyber.Scalar
@@ -480,6 +543,13 @@ func c20SchemesKind() c20kind {
 			b := make([]byte, 48)
 			rsConst.XORKeyStream(b, b)
 			return mon.Hex(b)
+		}})
+		// a stream over several sources, one of which runs dry during the concurrent phase (the other keeps delivering)
+		rsDry := random.New(&dryReader{budget: 12}, constReader{})
+		acts = append(acts, c20action{"random.New(shared stream, one of two sources runs dry).draw", func() string {
+			b := make([]byte, 16)
+			rsDry.XORKeyStream(b, b)
+			return "drawn"
 		}})
 		cr := &counterReader{}
 		rs := random.New(cr)
